@@ -67,7 +67,9 @@ def run(ctx):
     run_edges = variant_edges(ss, T, cs, CHILD_STATE["Running"], st_vals)
     for bb, t in ss.calls_to(lambda f: M.callee_str(f) == "posix::kill"):
         a = [T.operand(x) for x in t["args"]]
-        gated = dominated_by_edges(ss, bb, run_edges)
+        # reachable only while the state is Running (decided per state; the test may be made through pid(), which is Some exactly then)
+        gated = dominated_by_edges(ss, bb, run_edges) or \
+            all(bb not in M.Explore(ss, assume={self_field("child_state"): v_}).blocks for n_, v_ in CHILD_STATE.items() if n_ != "Running")
         ctx.ob("R10.2", "send_signal.gated", gated, ss.loc(bb),
                "posix::kill in send_signal must be dominated by the Running edge of a test on self.child_state")
         want = ("field", ("downcast", self_field("child_state"), "Running"), "pid")
@@ -76,7 +78,8 @@ def run(ctx):
         ctx.ob("R10.2", "send_signal.sig", a[1] == ("param", 2, ss.local_name(2)), ss.loc(bb),
                "signal = %s (must be the caller's number unchanged)" % M.term_str(a[1]))
         # nothing between the test and the send may change the state: no &mut self call in between
-        region = ss.reachable(0) - ss.reachable(0, removed_edges=set(run_edges))
+        region = (ss.reachable(0) - ss.reachable(0, removed_edges=set(run_edges))) if dominated_by_edges(ss, bb, run_edges) else \
+            {b_ for b_ in M.Explore(ss, assume={self_field("child_state"): CHILD_STATE["Running"]}).blocks if bb in ss.reachable(b_)}
         for rb in sorted(region):
             tt = ss.blocks[rb]["term"]
             if tt["k"] == "call" and rb != bb and not is_panic_call(tt):
@@ -119,10 +122,16 @@ def run(ctx):
                    "under child_state=Finished send_signal reaches calls: %s" % [M.callee_str(t["f"]) for _, t in calls])
             # returns Ok(())
             oks = []
+            Tx_ = M.Terms(ss, blocks=ex.blocks)
             for b in ex.blocks:
                 for s in ss.blocks[b]["stmts"]:
                     if s["k"] == "assign" and s["p"]["l"] == 0 and not s["p"]["proj"]:
-                        oks.append(s["r"].get("variant"))
+                        v_ = s["r"].get("variant")
+                        if v_ is None:
+                            # the value moved in from where it was built
+                            tv = Tx_.rvalue(s["r"])
+                            v_ = tv[1][2] if tv[0] == "agg" and isinstance(tv[1], tuple) and tv[1][:2] == ("adt", "std::result::Result") else None
+                        oks.append(v_)
             ctx.ob("R10.4", "send_signal[Finished].ok", oks == ["Ok"] and bool(ex.returns()), ss.loc(0),
                    "under child_state=Finished the result must be Ok(()); assignments to the return place: %s" % oks)
         elif name == "Preparing":
